@@ -1,1 +1,809 @@
-fn main() {}
+//! randmon - runtime monitor for the random generator (C14).
+//!   --mode ranges    every range form of every integer type under adversarial raw outputs fed through the public
+//!                    `Randomable::gen_from_u64` (membership for every raw value tried, reachability of small ranges)
+//!   --mode floats    half-open float ranges under raw outputs around 2^53..2^64 (start <= x < end)
+//!   --mode streams   determinism (seeds, copies), shuffle (multiset kept, permutation census over seeds, chi-square),
+//!                    serial structure of small-range draws (no short period, serial-pair chi-square)
+//! replay: --mode <m> --case <opaque>
+
+use common::{catch, lib, mix, Engine, Json, Report, Rng as HRng, WorkQueue};
+use rlib_rand::randomable::Randomable;
+use rlib_rand::{Rand, Rng};
+
+fn raws_for_len(len: u128, rng: &mut HRng, extra_random: usize) -> Vec<u64> {
+    // adversarial raw generator outputs for a range of `len` values
+    let mut v: Vec<u64> = Vec::new();
+    let l64 = if len > u64::MAX as u128 { u64::MAX } else { len as u64 };
+    for k in 0..=(2 * l64).min(600) {
+        v.push(k);
+    }
+    // multiples of len near 2^64 and the top of the u64 range
+    if l64 > 0 {
+        let top = u64::MAX / l64 * l64;
+        for d in 0..3u64 {
+            v.push(top.wrapping_sub(d));
+            v.push(top.wrapping_add(d));
+            v.push((top / 2 / l64 * l64).wrapping_add(d));
+        }
+    }
+    for k in 0..=64u64 {
+        v.push(u64::MAX - k);
+    }
+    for k in 0..4u64 {
+        v.push((1u64 << 53) + k);
+        v.push((1u64 << 53) - k);
+        v.push((1u64 << 63) + k);
+        v.push((1u64 << 63) - 1 - k);
+        v.push((1u64 << 32) + k);
+        v.push((1u64 << 32) - 1 - k);
+    }
+    for _ in 0..extra_random {
+        v.push(rng.next_u64());
+    }
+    v
+}
+
+struct Cx<'a> {
+    rep: &'a mut Report,
+}
+
+// ------------------------------------------------------------------------------------------------
+// integer ranges
+
+macro_rules! int_type {
+    ($fname:ident, $t:ty, $name:expr) => {
+        /// checks one (start, end) pair in all range forms; returns nothing, reports into cx
+        fn $fname(cx: &mut Cx, start: $t, end: $t, rng: &mut HRng, extra_random: usize, verbose: bool) {
+            let tn = $name;
+            let (s, e) = (start as i128, end as i128);
+            let min = <$t>::MIN as i128;
+            let max = <$t>::MAX as i128;
+            let replay = |form: &str, raw: u64| vec!["--mode".to_string(), "ranges".to_string(), "--case".to_string(), format!("{}:{}:{}:{}:{}", tn, form, s, e, raw)];
+            // ---- half-open start..end
+            if s < e {
+                let len = (e - s) as u128;
+                let raws = raws_for_len(len, rng, extra_random);
+                let mut seen: Vec<bool> = if len <= 256 { vec![false; len as usize] } else { vec![] };
+                for &raw in &raws {
+                    let x = lib!((start..end).gen_from_u64(raw)) as i128;
+                    cx.rep.inc("draws_checked");
+                    if !(s <= x && x < e) {
+                        cx.rep.violation(
+                            format!("int_range_outside:{}:range", tn),
+                            Json::obj().set("what", "a draw from start..end lies outside the range").set("type", tn).set("start", s).set("end", e).set("raw", raw).set("got", x),
+                            replay("range", raw),
+                        );
+                        break;
+                    }
+                    if !seen.is_empty() {
+                        seen[(x - s) as usize] = true;
+                    }
+                }
+                if !seen.is_empty() {
+                    cx.rep.inc("reachability_checks");
+                    if let Some(miss) = seen.iter().position(|b| !b) {
+                        cx.rep.violation(
+                            format!("int_range_unreachable:{}:range", tn),
+                            Json::obj().set("what", "a value of a small range is never produced although all raw outputs 0..2*len were tried").set("type", tn).set("start", s).set("end", e).set("missing", s + miss as i128),
+                            replay("range", 0),
+                        );
+                    }
+                }
+            }
+            // ---- inclusive start..=end
+            if s <= e {
+                let len = (e - s + 1) as u128;
+                let raws = raws_for_len(len, rng, extra_random);
+                let mut seen: Vec<bool> = if len <= 256 { vec![false; len as usize] } else { vec![] };
+                for &raw in &raws {
+                    let x = lib!((start..=end).gen_from_u64(raw)) as i128;
+                    cx.rep.inc("draws_checked");
+                    if !(s <= x && x <= e) {
+                        cx.rep.violation(
+                            format!("int_range_outside:{}:inclusive", tn),
+                            Json::obj().set("what", "a draw from start..=end lies outside the range").set("type", tn).set("start", s).set("end", e).set("raw", raw).set("got", x),
+                            replay("inclusive", raw),
+                        );
+                        break;
+                    }
+                    if !seen.is_empty() {
+                        seen[(x - s) as usize] = true;
+                    }
+                }
+                if !seen.is_empty() {
+                    cx.rep.inc("reachability_checks");
+                    if let Some(miss) = seen.iter().position(|b| !b) {
+                        cx.rep.violation(
+                            format!("int_range_unreachable:{}:inclusive", tn),
+                            Json::obj().set("what", "a value of a small inclusive range is never produced").set("type", tn).set("start", s).set("end", e).set("missing", s + miss as i128),
+                            replay("inclusive", 0),
+                        );
+                    }
+                }
+            }
+            // ---- ..end and ..=end (the library draws from 0; any value below `end` is inside the range)
+            if e > 0 {
+                let raws = raws_for_len(e as u128, rng, extra_random);
+                let mut seen: Vec<bool> = if e <= 256 { vec![false; e as usize] } else { vec![] };
+                for &raw in &raws {
+                    let x = lib!((..end).gen_from_u64(raw)) as i128;
+                    cx.rep.inc("draws_checked");
+                    if !(min <= x && x < e) {
+                        cx.rep.violation(
+                            format!("int_range_outside:{}:to", tn),
+                            Json::obj().set("what", "a draw from ..end is not below end").set("type", tn).set("end", e).set("raw", raw).set("got", x),
+                            replay("to", raw),
+                        );
+                        break;
+                    }
+                    if !seen.is_empty() && x >= 0 {
+                        seen[x as usize] = true;
+                    }
+                }
+                if !seen.is_empty() {
+                    cx.rep.inc("reachability_checks");
+                    if let Some(miss) = seen.iter().position(|b| !b) {
+                        cx.rep.violation(
+                            format!("int_range_unreachable:{}:to", tn),
+                            Json::obj().set("what", "a value of 0..end is never produced by ..end").set("type", tn).set("end", e).set("missing", miss),
+                            replay("to", 0),
+                        );
+                    }
+                }
+            }
+            if e >= 0 {
+                let raws = raws_for_len((e + 1) as u128, rng, extra_random);
+                for &raw in &raws {
+                    let x = lib!((..=end).gen_from_u64(raw)) as i128;
+                    cx.rep.inc("draws_checked");
+                    if !(min <= x && x <= e) {
+                        cx.rep.violation(
+                            format!("int_range_outside:{}:to_inclusive", tn),
+                            Json::obj().set("what", "a draw from ..=end is above end").set("type", tn).set("end", e).set("raw", raw).set("got", x),
+                            replay("to_inclusive", raw),
+                        );
+                        break;
+                    }
+                }
+            }
+            // ---- full range: every value of the type is fine; the draw must be a function of raw (checked by type), and
+            // for 8-bit types all values must be reachable
+            if s == min && e == max {
+                let mut seen = vec![false; 256];
+                for raw in 0..512u64 {
+                    let x: $t = lib!((..).gen_from_u64(raw));
+                    cx.rep.inc("draws_checked");
+                    if (max - min) < 256 {
+                        seen[(x as i128 - min) as usize] = true;
+                    }
+                }
+                if (max - min) < 256 && seen.iter().any(|b| !b) {
+                    cx.rep.violation(format!("int_range_unreachable:{}:full", tn), Json::obj().set("what", "a value of the full 8-bit range is never produced").set("type", tn), replay("full", 0));
+                }
+            }
+            if verbose {
+                eprintln!("  {} start={} end={} checked", tn, s, e);
+            }
+        }
+    };
+}
+
+int_type!(check_i8, i8, "i8");
+int_type!(check_u8, u8, "u8");
+int_type!(check_i16, i16, "i16");
+int_type!(check_u16, u16, "u16");
+int_type!(check_i32, i32, "i32");
+int_type!(check_u32, u32, "u32");
+int_type!(check_i64, i64, "i64");
+int_type!(check_u64, u64, "u64");
+int_type!(check_isize, isize, "isize");
+int_type!(check_usize, usize, "usize");
+
+macro_rules! wide_bounds {
+    ($t:ty) => {{
+        // boundary ranges: lengths 1, 2^k, MAX, full width, start at MIN, end at MAX
+        let mut v: Vec<($t, $t)> = Vec::new();
+        let (mn, mx) = (<$t>::MIN, <$t>::MAX);
+        let bits = <$t>::BITS;
+        let anchors: Vec<$t> = vec![mn, mn + 1, (mn / 2), 0 as $t, 1 as $t, (mx / 2), mx - 1, mx];
+        for &a in &anchors {
+            v.push((a, a)); // inclusive length 1
+            for k in 0..bits {
+                let len = (1u128 << k) as i128;
+                let e = a as i128 + len;
+                if e <= mx as i128 {
+                    v.push((a, e as $t));
+                }
+                let e2 = a as i128 + len - 1;
+                if e2 <= mx as i128 && e2 >= a as i128 {
+                    v.push((a, e2 as $t));
+                }
+                let e3 = a as i128 + len + 1;
+                if e3 <= mx as i128 {
+                    v.push((a, e3 as $t));
+                }
+                let s = mx as i128 - len;
+                if s >= mn as i128 {
+                    v.push((s as $t, mx));
+                }
+            }
+        }
+        v.push((mn, mx));
+        v.push((mn, mx - 1));
+        v.push((mn + 1, mx));
+        v.push((0 as $t, mx));
+        v
+    }};
+}
+
+fn run_ranges(eng_threads: usize, thorough: bool, seed: u64, report: &mut Report) {
+    // 8-bit types: all (start, end) pairs, sharded by start
+    let q = WorkQueue::new(512);
+    let extra = if thorough { 200 } else { 12 };
+    let rep = common::run_sharded(eng_threads, |_s, rep| {
+        let mut cx = Cx { rep };
+        while let Some(i) = q.take() {
+            let mut hr = HRng::new(mix(&[seed, 14, i]));
+            let r = catch(|| {
+                if i < 256 {
+                    let s = i as u8;
+                    for e in 0..=255u8 {
+                        check_u8(&mut cx, s, e, &mut hr, extra, false);
+                        cx.rep.inc("evaluations");
+                        if s < e {
+                            cx.rep.see("nontrivial", mix(&[1, s as u64, e as u64]));
+                        }
+                    }
+                } else {
+                    let s = (i - 256) as u8 as i8;
+                    for e in i8::MIN..=i8::MAX {
+                        check_i8(&mut cx, s, e, &mut hr, extra, false);
+                        cx.rep.inc("evaluations");
+                        if s < e {
+                            cx.rep.see("nontrivial", mix(&[2, s as u8 as u64, e as u8 as u64]));
+                        }
+                    }
+                }
+            });
+            if let Err(p) = r {
+                if p.in_lib {
+                    cx.rep.violation(format!("panic:ranges"), Json::obj().set("panic", p.msg.as_str()).set("at", format!("{}:{}", p.file, p.line)).set("start_index", i), vec![]);
+                } else {
+                    cx.rep.inconclusive(format!("harness panic at {}:{}: {}", p.file, p.line, p.msg));
+                }
+            }
+        }
+    });
+    report.merge(rep);
+    // wider types: boundary ranges
+    let mut rep = Report::new();
+    {
+        let mut cx = Cx { rep: &mut rep };
+        let mut hr = HRng::new(mix(&[seed, 15]));
+        let extra = if thorough { 2000 } else { 100 };
+        macro_rules! wide {
+            ($f:ident, $t:ty, $k:expr) => {
+                for (s, e) in wide_bounds!($t) {
+                    let r = catch(|| $f(&mut cx, s, e, &mut hr, extra, false));
+                    cx.rep.inc("evaluations");
+                    cx.rep.see("nontrivial", mix(&[$k, s as u64, e as u64]));
+                    if let Err(p) = r {
+                        if p.in_lib {
+                            cx.rep.violation(
+                                format!("panic:{}", stringify!($t)),
+                                Json::obj().set("what", "the library panicked on a non-empty range").set("panic", p.msg.as_str()).set("at", format!("{}:{}", p.file, p.line)).set("start", s as i128).set("end", e as i128),
+                                vec![],
+                            );
+                        } else {
+                            cx.rep.inconclusive(format!("harness panic at {}:{}: {}", p.file, p.line, p.msg));
+                        }
+                    }
+                }
+            };
+        }
+        wide!(check_i16, i16, 3);
+        wide!(check_u16, u16, 4);
+        wide!(check_i32, i32, 5);
+        wide!(check_u32, u32, 6);
+        wide!(check_i64, i64, 7);
+        wide!(check_u64, u64, 8);
+        wide!(check_isize, isize, 9);
+        wide!(check_usize, usize, 10);
+    }
+    report.merge(rep);
+}
+
+fn replay_range(case: &str, report: &mut Report) {
+    let p: Vec<&str> = case.split(':').collect();
+    let (tn, s, e): (&str, i128, i128) = (p[0], p[2].parse().unwrap(), p[3].parse().unwrap());
+    let mut hr = HRng::new(1);
+    let mut cx = Cx { rep: report };
+    match tn {
+        "i8" => check_i8(&mut cx, s as i8, e as i8, &mut hr, 50, true),
+        "u8" => check_u8(&mut cx, s as u8, e as u8, &mut hr, 50, true),
+        "i16" => check_i16(&mut cx, s as i16, e as i16, &mut hr, 50, true),
+        "u16" => check_u16(&mut cx, s as u16, e as u16, &mut hr, 50, true),
+        "i32" => check_i32(&mut cx, s as i32, e as i32, &mut hr, 50, true),
+        "u32" => check_u32(&mut cx, s as u32, e as u32, &mut hr, 50, true),
+        "i64" => check_i64(&mut cx, s as i64, e as i64, &mut hr, 50, true),
+        "u64" => check_u64(&mut cx, s as u64, e as u64, &mut hr, 50, true),
+        "isize" => check_isize(&mut cx, s as isize, e as isize, &mut hr, 50, true),
+        "usize" => check_usize(&mut cx, s as usize, e as usize, &mut hr, 50, true),
+        _ => panic!("unknown type"),
+    }
+}
+
+// ------------------------------------------------------------------------------------------------
+// float ranges
+
+fn float_raws(rng: &mut HRng, n_random: usize, deep: bool) -> Vec<u64> {
+    let mut v: Vec<u64> = vec![0, 1, 2, 3];
+    for j in 0..64u64 {
+        v.push(j << 11);
+        v.push((j << 11) + 1);
+        v.push(1u64 << j);
+        v.push((1u64 << j).wrapping_sub(1));
+    }
+    for k in 0..16u64 {
+        v.push((1u64 << 53) + k);
+        v.push((1u64 << 53) - k);
+        v.push((1u64 << 63) + k);
+    }
+    let top = if deep { 65536 } else { 8192 };
+    for k in 0..=top {
+        v.push(u64::MAX - k);
+    }
+    for _ in 0..n_random {
+        v.push(rng.next_u64());
+        v.push(u64::MAX - (rng.next_u64() >> 40)); // near the top
+    }
+    v
+}
+
+fn run_floats(thorough: bool, seed: u64, report: &mut Report, only: Option<(f64, f64, u64)>) {
+    let mut hr = HRng::new(mix(&[seed, 16]));
+    let ranges: Vec<(f64, f64, &str)> = vec![
+        (0.0, 1.0, "unit"),
+        (10.0, 20.0, "10..20"),
+        (-1.0, 1.0, "-1..1"),
+        (-20.0, -10.0, "negative"),
+        (1.0, 1.0 + f64::EPSILON, "one ulp wide"),
+        (1.0, 1.0 + 2.0 * f64::EPSILON, "two ulps wide"),
+        (0.0, f64::MIN_POSITIVE, "0..min normal"),
+        (0.0, 5e-324, "0..min subnormal"),
+        (-5e-324, 5e-324, "subnormal straddle"),
+        (-1e308, 1e308, "huge symmetric"),
+        (-f64::MAX, f64::MAX, "whole finite line"),
+        (0.0, f64::MAX, "0..MAX"),
+        (1e300, 1.0000001e300, "huge narrow"),
+        (-3.5, 1e9, "mixed"),
+        (123456.789, 123456.79, "narrow"),
+        (1e-300, 1e-299, "tiny"),
+    ];
+    let mut all: Vec<(f64, f64, String)> = ranges.iter().map(|r| (r.0, r.1, r.2.to_string())).collect();
+    for _ in 0..(if thorough { 2000 } else { 150 }) {
+        // random finite ranges, start < end
+        let a = f64::from_bits(hr.next_u64());
+        let b = f64::from_bits(hr.next_u64());
+        if a.is_finite() && b.is_finite() && a != b {
+            all.push((a.min(b), a.max(b), "random bit patterns".to_string()));
+        }
+        let c = hr.f64_range(-1000.0, 1000.0);
+        let w = 10f64.powf(hr.f64_range(-12.0, 3.0));
+        all.push((c, c + w, "random moderate".to_string()));
+    }
+    let raws = float_raws(&mut hr, if thorough { 200_000 } else { 5_000 }, thorough);
+    for (s, e, name) in all {
+        if let Some((os, oe, _)) = only {
+            if os.to_bits() != s.to_bits() || oe.to_bits() != e.to_bits() {
+                continue;
+            }
+        }
+        report.inc("evaluations");
+        report.see("nontrivial", mix(&[s.to_bits(), e.to_bits()]));
+        report.see_str("float_range_families", &name);
+        let r = catch(|| {
+            let mut bad: Option<(u64, f64)> = None;
+            let mut n = 0u64;
+            let mut lo_seen = f64::INFINITY;
+            let mut hi_seen = f64::NEG_INFINITY;
+            for &raw in &raws {
+                if let Some((_, _, oraw)) = only {
+                    if oraw != raw {
+                        continue;
+                    }
+                }
+                let x = lib!((s..e).gen_from_u64(raw));
+                n += 1;
+                if !(s <= x && x < e) {
+                    if bad.is_none() {
+                        bad = Some((raw, x));
+                    }
+                } else {
+                    lo_seen = lo_seen.min(x);
+                    hi_seen = hi_seen.max(x);
+                }
+            }
+            (bad, n, lo_seen, hi_seen)
+        });
+        match r {
+            Ok((bad, n, _lo, _hi)) => {
+                report.count("draws_checked", n);
+                if let Some((raw, x)) = bad {
+                    let what = if x == e { "reaches_end" } else if x.is_nan() { "nan" } else { "outside" };
+                    report.violation(
+                        format!("float_range:{}", what),
+                        Json::obj()
+                            .set("what", "a draw from the half-open float range start..end violates start <= x < end")
+                            .set("start", s)
+                            .set("end", e)
+                            .set("family", name.as_str())
+                            .set("raw", raw)
+                            .set("raw_distance_below_2^64", (u64::MAX - raw) as u128 + 1)
+                            .set("got", x)
+                            .set("got_bits", format!("{:#018x}", x.to_bits())),
+                        vec!["--mode".into(), "floats".into(), "--case".into(), format!("{}:{}:{}", s.to_bits(), e.to_bits(), raw)],
+                    );
+                }
+            }
+            Err(p) => {
+                if p.in_lib {
+                    report.violation("panic:float_range", Json::obj().set("panic", p.msg.as_str()).set("start", s).set("end", e), vec![]);
+                } else {
+                    report.inconclusive(format!("harness panic at {}:{}: {}", p.file, p.line, p.msg));
+                }
+            }
+        }
+    }
+    // Rand::next on a float range goes through the same mapping
+    let mut g = Rng::from_seed(seed);
+    for _ in 0..100_000 {
+        let x: f64 = lib!(g.next(0.25..0.75));
+        report.inc("draws_checked");
+        if !(0.25..0.75).contains(&x) {
+            report.violation("float_range:next_outside", Json::obj().set("got", x), vec![]);
+            break;
+        }
+    }
+}
+
+// ------------------------------------------------------------------------------------------------
+// streams: determinism, shuffle, serial structure
+
+/// 1 - 1e-12 quantile of chi-square with df degrees of freedom (Wilson-Hilferty), generous
+fn chi2_bound(df: f64) -> f64 {
+    let z = 7.2;
+    let t = 1.0 - 2.0 / (9.0 * df) + z * (2.0 / (9.0 * df)).sqrt();
+    df * t * t * t + 10.0
+}
+
+fn factorial(n: usize) -> usize {
+    (1..=n).product()
+}
+
+fn perm_index(p: &[u8]) -> usize {
+    // Lehmer code
+    let n = p.len();
+    let mut idx = 0;
+    for i in 0..n {
+        let smaller = p[i + 1..].iter().filter(|&&x| x < p[i]).count();
+        idx = idx * (n - i) + smaller;
+    }
+    idx
+}
+
+fn seed_family(kind: usize, i: u64, base: u64) -> u64 {
+    match kind {
+        0 => i,                                                 // sequential from 0
+        1 => base.wrapping_add(i),                              // sequential from an offset
+        2 => i.wrapping_mul(0x9E37_79B9_7F4A_7C15),             // scrambled
+        3 => (base >> 3).wrapping_add(i * 1000 + i % 7),        // timestamp-like (from_time seeds differ in their low bits)
+        _ => i.wrapping_mul(1_000_003).wrapping_add(base >> 7), // strided
+    }
+}
+
+const FAMILY_NAMES: [&str; 5] = ["sequential", "offset", "scrambled", "timestamp_like", "strided"];
+
+fn run_shuffle_census(n: usize, kind: usize, seeds: u64, base: u64, report: &mut Report) {
+    let nf = factorial(n);
+    let mut counts = vec![0u64; nf];
+    report.inc("evaluations");
+    report.see("nontrivial", mix(&[17, n as u64, kind as u64, base]));
+    let r = catch(|| {
+        for i in 0..seeds {
+            let mut g = Rng::from_seed(seed_family(kind, i, base));
+            let mut v: Vec<u8> = (0..n as u8).collect();
+            lib!(g.shuffle(&mut v));
+            let mut sorted = v.clone();
+            sorted.sort();
+            if sorted != (0..n as u8).collect::<Vec<u8>>() {
+                return Err(format!("{:?}", v));
+            }
+            counts[perm_index(&v)] += 1;
+        }
+        Ok(())
+    });
+    let replay = vec!["--mode".into(), "streams".into(), "--case".into(), format!("shuffle:{}:{}:{}:{}", n, kind, seeds, base)];
+    match r {
+        Err(p) => {
+            if p.in_lib {
+                report.violation("panic:shuffle", Json::obj().set("panic", p.msg.as_str()).set("n", n), replay);
+            } else {
+                report.inconclusive(format!("harness panic at {}:{}: {}", p.file, p.line, p.msg));
+            }
+        }
+        Ok(Err(v)) => report.violation("shuffle:not_a_rearrangement", Json::obj().set("what", "shuffle did not return a rearrangement of the same elements").set("got", v).set("n", n), replay),
+        Ok(Ok(())) => {
+            report.count("shuffles", seeds);
+            let reached = counts.iter().filter(|&&c| c > 0).count();
+            let expected = seeds as f64 / nf as f64;
+            let chi2: f64 = counts.iter().map(|&c| (c as f64 - expected).powi(2) / expected).sum();
+            let bound = chi2_bound((nf - 1) as f64);
+            report.max(&format!("shuffle_chi2_over_bound_x1000_n{}", n), (chi2 / bound * 1000.0) as i64);
+            report.count("permutations_reached", reached as u64);
+            report.count("permutations_possible", nf as u64);
+            if reached < nf {
+                report.violation(
+                    format!("shuffle:unreachable_permutations:n{}", n),
+                    Json::obj()
+                        .set("what", "some rearrangements of a short slice are never produced by any of the seeds tried")
+                        .set("n", n)
+                        .set("seed_family", FAMILY_NAMES[kind])
+                        .set("seeds", seeds)
+                        .set("reached", reached)
+                        .set("of", nf),
+                    replay,
+                );
+            } else if chi2 > bound {
+                report.violation(
+                    format!("shuffle:unfair:n{}", n),
+                    Json::obj()
+                        .set("what", "the frequencies of the rearrangements over the seeds are far from equal (chi-square above the 1-1e-12 quantile)")
+                        .set("n", n)
+                        .set("seed_family", FAMILY_NAMES[kind])
+                        .set("seeds", seeds)
+                        .set("chi2", chi2)
+                        .set("bound", bound)
+                        .set("df", nf - 1),
+                    replay,
+                );
+            }
+            report.sample(Json::obj().set("shuffle_census_n", n).set("seed_family", FAMILY_NAMES[kind]).set("seeds", seeds).set("permutations_reached", reached).set("of", nf).set("chi2", (chi2 * 10.0).round() / 10.0).set("bound", bound.round()));
+        }
+    }
+}
+
+fn run_serial(len: u64, seed0: u64, draws: usize, report: &mut Report) {
+    report.inc("evaluations");
+    report.see("nontrivial", mix(&[18, len, seed0]));
+    let replay = vec!["--mode".into(), "streams".into(), "--case".into(), format!("serial:{}:{}:{}", len, seed0, draws)];
+    let r = catch(|| {
+        let mut g = Rng::from_seed(seed0);
+        let v: Vec<u64> = (0..draws).map(|_| lib!(g.next(0..len))).collect();
+        v
+    });
+    let v = match r {
+        Ok(v) => v,
+        Err(p) => {
+            if p.in_lib {
+                report.violation("panic:next", Json::obj().set("panic", p.msg.as_str()), replay);
+            } else {
+                report.inconclusive(format!("harness panic at {}:{}: {}", p.file, p.line, p.msg));
+            }
+            return;
+        }
+    };
+    report.count("serial_draws", draws as u64);
+    if v.iter().any(|&x| x >= len) {
+        report.violation("serial:outside", Json::obj().set("len", len), replay.clone());
+        return;
+    }
+    // exact period <= 2048 over the whole window
+    for p in 1..=2048usize {
+        if p * 2 > draws {
+            break;
+        }
+        if (p..draws).all(|i| v[i] == v[i - p]) {
+            report.violation(
+                format!("serial:periodic:len{}", len),
+                Json::obj()
+                    .set("what", "consecutive draws from a small range repeat with a short exact period")
+                    .set("range_len", len)
+                    .set("seed", seed0)
+                    .set("period", p)
+                    .set("first_draws", Json::from(v.iter().take(24).cloned().collect::<Vec<u64>>())),
+                replay,
+            );
+            return;
+        }
+    }
+    // serial pairs (non-overlapping)
+    if len <= 16 {
+        let k = (len * len) as usize;
+        let mut c = vec![0u64; k];
+        let pairs = draws / 2;
+        for i in 0..pairs {
+            c[(v[2 * i] * len + v[2 * i + 1]) as usize] += 1;
+        }
+        let expected = pairs as f64 / k as f64;
+        let chi2: f64 = c.iter().map(|&x| (x as f64 - expected).powi(2) / expected).sum();
+        let bound = chi2_bound((k - 1) as f64);
+        report.max(&format!("serial_pair_chi2_over_bound_x1000_len{}", len), (chi2 / bound * 1000.0) as i64);
+        if chi2 > bound {
+            report.violation(
+                format!("serial:pairs_unfair:len{}", len),
+                Json::obj().set("what", "pairs of consecutive small-range draws are far from uniform").set("range_len", len).set("seed", seed0).set("chi2", chi2).set("bound", bound),
+                replay,
+            );
+        }
+    } else {
+        // single-value frequencies
+        let k = len as usize;
+        let mut c = vec![0u64; k];
+        for &x in &v {
+            c[x as usize] += 1;
+        }
+        let expected = draws as f64 / k as f64;
+        let chi2: f64 = c.iter().map(|&x| (x as f64 - expected).powi(2) / expected).sum();
+        let bound = chi2_bound((k - 1) as f64);
+        if chi2 > bound {
+            report.violation(format!("serial:values_unfair:len{}", len), Json::obj().set("range_len", len).set("seed", seed0).set("chi2", chi2).set("bound", bound), replay);
+        }
+    }
+}
+
+fn run_determinism(seed: u64, thorough: bool, report: &mut Report) {
+    let mut hr = HRng::new(mix(&[seed, 19]));
+    let nseeds = if thorough { 20_000 } else { 2_000 };
+    let ndraws = if thorough { 2_000 } else { 500 };
+    for i in 0..nseeds {
+        let s = match i % 4 {
+            0 => i as u64,
+            1 => u64::MAX - i as u64,
+            _ => hr.next_u64(),
+        };
+        report.inc("evaluations");
+        report.see("nontrivial", mix(&[20, s]));
+        let r = catch(|| {
+            let mut a = Rng::from_seed(s);
+            let mut b = Rng::from_seed(s);
+            let mut ok = true;
+            let mut copy_at = None;
+            for k in 0..ndraws {
+                if k == ndraws / 3 {
+                    copy_at = Some(a); // Rng is Copy: the copy must continue the same stream
+                }
+                let (x, y) = (lib!(a.next_raw()), lib!(b.next_raw()));
+                if x != y {
+                    ok = false;
+                    break;
+                }
+                if k % 7 == 0 {
+                    let (p, q): (i32, i32) = (lib!(a.next(-5..17)), lib!(b.next(-5..17)));
+                    if p != q {
+                        ok = false;
+                        break;
+                    }
+                }
+            }
+            if let Some(mut c) = copy_at {
+                // replay from the copy point with a fresh generator advanced identically
+                let mut d = Rng::from_seed(s);
+                for k in 0..ndraws / 3 {
+                    lib!(d.next_raw());
+                    if k % 7 == 0 {
+                        let _: i32 = lib!(d.next(-5..17));
+                    }
+                }
+                for _ in 0..50 {
+                    if lib!(c.next_raw()) != lib!(d.next_raw()) {
+                        ok = false;
+                    }
+                }
+            }
+            // shuffle determinism
+            let mut v1: Vec<u32> = (0..20).collect();
+            let mut v2 = v1.clone();
+            lib!(Rng::from_seed(s).shuffle(&mut v1));
+            lib!(Rng::from_seed(s).shuffle(&mut v2));
+            ok && v1 == v2
+        });
+        report.count("determinism_draws", ndraws as u64 * 2);
+        match r {
+            Ok(true) => {}
+            Ok(false) => report.violation("determinism", Json::obj().set("what", "two generators with the same seed (or a copy) produced different streams").set("seed", s), vec!["--mode".into(), "streams".into(), "--case".into(), format!("det:{}", s)]),
+            Err(p) => {
+                if p.in_lib {
+                    report.violation("panic:determinism", Json::obj().set("panic", p.msg.as_str()).set("seed", s), vec![]);
+                } else {
+                    report.inconclusive(format!("harness panic: {}", p.msg));
+                }
+            }
+        }
+    }
+    // different seeds should not all give the same stream (a constant generator is deterministic too)
+    let mut firsts = std::collections::HashSet::new();
+    for s in 0..1000u64 {
+        firsts.insert(lib!(Rng::from_seed(s).next_raw()));
+    }
+    if firsts.len() < 990 {
+        report.violation("determinism:seed_ignored", Json::obj().set("what", "different seeds give (almost) the same first output").set("distinct_first_outputs_of_1000_seeds", firsts.len()), vec![]);
+    }
+    let _ = lib!(Rng::from_time().next_raw());
+}
+
+fn main() {
+    let eng = Engine::start("randmon");
+    let a = &eng.args;
+    let mode = a.str("mode", "ranges");
+    let thorough = a.thorough();
+    let seed = a.seed();
+    let mut report = Report::new();
+    report.sample_cap = 24;
+    report.extra("mode", mode.as_str());
+    match mode.as_str() {
+        "ranges" => {
+            if let Some(c) = a.opt("case") {
+                replay_range(&c, &mut report);
+                eng.finish(report);
+            }
+            run_ranges(a.threads(), thorough, seed, &mut report);
+            report.extra("exhaustive", "all (start, end) pairs of u8 and i8 in every range form");
+            report.sample(Json::obj().set("example", "(3u8..9).gen_from_u64(raw) for raw in 0..=12, 2^64-1-k (k<=64), multiples of 6 next to 2^64, 2^53+-k, random"));
+        }
+        "floats" => {
+            let only = a.opt("case").map(|c| {
+                let p: Vec<u64> = c.split(':').map(|x| x.parse().unwrap()).collect();
+                (f64::from_bits(p[0]), f64::from_bits(p[1]), p[2])
+            });
+            run_floats(thorough, seed, &mut report, only);
+            report.extra("exhaustive", false);
+            report.sample(Json::obj().set("example", "(10.0..20.0).gen_from_u64(2^64 - 4097) must be < 20.0"));
+        }
+        "streams" => {
+            if let Some(c) = a.opt("case") {
+                let p: Vec<&str> = c.split(':').collect();
+                match p[0] {
+                    "shuffle" => run_shuffle_census(p[1].parse().unwrap(), p[2].parse().unwrap(), p[3].parse().unwrap(), p[4].parse().unwrap(), &mut report),
+                    "serial" => run_serial(p[1].parse().unwrap(), p[2].parse().unwrap(), p[3].parse().unwrap(), &mut report),
+                    _ => run_determinism(seed, false, &mut report),
+                }
+                eng.finish(report);
+            }
+            run_determinism(seed, thorough, &mut report);
+            // shuffle census and serial tests, sharded
+            let seeds_per_census: u64 = if thorough { 2_000_000 } else { 200_000 };
+            let mut tasks: Vec<(u8, u64, u64, u64)> = Vec::new(); // (kind 0 = census / 1 = serial, a, b, c)
+            let mut hr = HRng::new(mix(&[seed, 21]));
+            for n in 2..=6u64 {
+                for kind in 0..5u64 {
+                    tasks.push((0, n, kind, hr.next_u64()));
+                }
+            }
+            for &len in &[2u64, 3, 4, 5, 8, 16, 256] {
+                for k in 0..(if thorough { 40 } else { 8 }) {
+                    let s0 = if k == 0 { 42 } else if k == 1 { 0 } else { hr.next_u64() };
+                    tasks.push((1, len, s0, 8192));
+                }
+            }
+            let q = WorkQueue::new(tasks.len() as u64);
+            let tasks = &tasks;
+            let rep = common::run_sharded(a.threads(), |_s, rep| {
+                rep.sample_cap = 24;
+                while let Some(i) = q.take() {
+                    let t = tasks[i as usize];
+                    if t.0 == 0 {
+                        run_shuffle_census(t.1 as usize, t.2 as usize, seeds_per_census, t.3, rep);
+                    } else {
+                        run_serial(t.1, t.2, t.3 as usize, rep);
+                    }
+                }
+            });
+            report.merge(rep);
+            report.extra("exhaustive", false);
+            report.extra("chi_square_bound", "Wilson-Hilferty approximation of the 1-1e-12 quantile (z = 7.2) plus 10");
+        }
+        m => panic!("unknown mode {}", m),
+    }
+    eng.finish(report);
+}
